@@ -924,6 +924,41 @@ def hijriT_MonthData_GetJdFromDate (mdata : hijri_MonthData) (date : GoSem.Date)
     | GoSem.Flow.next jd =>
       pure (((jd + (date).Day) - 1), true)
 
+/-- cal_types/hijri/hijri.go:133 -/
+def hijriT_MonthData_GetDateFromJd (mdata : hijri_MonthData) (jd : Int) : Option (Option GoSem.Date) := do
+  if (!((decide ((mdata).EndJd ≥ jd)) && (decide (jd ≥ (mdata).StartJd)))) then
+    pure none
+  else
+    let y ← (GoSem.idx (mdata).StartDate 0)
+    let m ← (GoSem.idx (mdata).StartDate 1)
+    let d ← (GoSem.idx (mdata).StartDate 2)
+    let ym := (((y * 12) + m) - 1)
+    let startJd := (mdata).StartJd
+    let _r1 ← GoSem.whileB (ρ := (Option GoSem.Date)) GoSem.fuel
+      (fun (jd, d, ym) => do pure (decide (jd > startJd)))
+      (fun (jd, d, ym) => do
+        let monthLen := (GoSem.mapGet (mdata).MonthLenByYm ym)
+        let jdm0 := (jd - monthLen)
+        if (decide (jdm0 ≤ (startJd - d))) then
+          let d := ((d + jd) - startJd)
+          pure (GoSem.Flow.ret (Sum.inr (jd, d, ym)))
+        else
+          if ((decide ((startJd - d) < jdm0)) && (decide (jdm0 ≤ startJd))) then
+            let ym := (ym + 1)
+            let d := (((d + jd) - startJd) - monthLen)
+            pure (GoSem.Flow.ret (Sum.inr (jd, d, ym)))
+          else
+            let ym := (ym + 1)
+            let jd := (jd - monthLen)
+            pure (GoSem.Flow.next (jd, d, ym))
+      )
+      (jd, d, ym)
+    match _r1 with
+    | GoSem.Flow.ret _v => pure _v
+    | GoSem.Flow.next (jd, d, ym) =>
+      let (year, mm) ← (utils_Divmod ym 12)
+      pure (some (← (SrcExt.lib_NewDate year (GoSem.u8 (mm + 1)) (GoSem.u8 d))))
+
 /-- cal_types/hijri/hijri.go:248 -/
 def hijriT_ToJd (monthData : hijri_MonthData) (date : GoSem.Date) : Option Int := do
   let (jd, ok) ← (hijriT_MonthData_GetJdFromDate monthData date)
@@ -931,6 +966,17 @@ def hijriT_ToJd (monthData : hijri_MonthData) (date : GoSem.Date) : Option Int :
     pure jd
   else
     pure (((((date).Day + (GoSem.ftoi ((Rat.ceil (((59 : Rat) / 2) * (((GoSem.u8 ((date).Month - 1)) : Int) : Rat)) : Int) : Rat))) + (((date).Year - 1) * 354)) + (← (utils_Div ((11 * (date).Year) + 3) 30))) + 1948440)
+
+/-- cal_types/hijri/hijri.go:262 -/
+def hijriT_JdTo (monthData : hijri_MonthData) (jd : Int) : Option GoSem.Date := do
+  let date ← (hijriT_MonthData_GetDateFromJd monthData jd)
+  if (date).isSome then
+    date
+  else
+    let year ← (utils_Div ((30 * ((jd - 1) - 1948440)) + 10646) 10631)
+    let month := (GoSem.u8 (← (utils_IntMin 12 (GoSem.ftoi ((Rat.ceil (((((jd : Int) : Rat) + ((1 : Rat) / 2)) - (((← (hijriT_ToJd monthData (← (SrcExt.lib_NewDate year 1 1)))) : Int) : Rat)) / ((59 : Rat) / 2)) : Int) : Rat)))))
+    let day := (GoSem.u8 ((jd - (← (hijriT_ToJd monthData (← (SrcExt.lib_NewDate year month 1))))) + 1))
+    (SrcExt.lib_NewDate year month day)
 
 /-- cal_types/hijri/hijri.go:281 -/
 def hijriT_GetMonthLen (monthData : hijri_MonthData) (year : Int) (month : Int) : Option Int := do
@@ -1816,6 +1862,41 @@ def hijriT_MonthData_GetJdFromDate_chk (mdata : hijri_MonthData) (date : GoSem.D
     | GoSem.Flow.next jd =>
       pure ((← (GoSem.chk64 ((← (GoSem.chk64 (jd + (date).Day))) - 1))), true)
 
+/-- cal_types/hijri/hijri.go:133 -/
+def hijriT_MonthData_GetDateFromJd_chk (mdata : hijri_MonthData) (jd : Int) : Option (Option GoSem.Date) := do
+  if (!((decide ((mdata).EndJd ≥ jd)) && (decide (jd ≥ (mdata).StartJd)))) then
+    pure none
+  else
+    let y ← (GoSem.idx (mdata).StartDate 0)
+    let m ← (GoSem.idx (mdata).StartDate 1)
+    let d ← (GoSem.idx (mdata).StartDate 2)
+    let ym ← (GoSem.chk64 ((← (GoSem.chk64 ((← (GoSem.chk64 (y * 12))) + m))) - 1))
+    let startJd := (mdata).StartJd
+    let _r1 ← GoSem.whileB (ρ := (Option GoSem.Date)) GoSem.fuel
+      (fun (jd, d, ym) => do pure (decide (jd > startJd)))
+      (fun (jd, d, ym) => do
+        let monthLen := (GoSem.mapGet (mdata).MonthLenByYm ym)
+        let jdm0 ← (GoSem.chk64 (jd - monthLen))
+        if (decide (jdm0 ≤ (← (GoSem.chk64 (startJd - d))))) then
+          let d ← (GoSem.chk64 ((← (GoSem.chk64 (d + jd))) - startJd))
+          pure (GoSem.Flow.ret (Sum.inr (jd, d, ym)))
+        else
+          if ((decide ((← (GoSem.chk64 (startJd - d))) < jdm0)) && (decide (jdm0 ≤ startJd))) then
+            let ym ← (GoSem.chk64 (ym + 1))
+            let d ← (GoSem.chk64 ((← (GoSem.chk64 ((← (GoSem.chk64 (d + jd))) - startJd))) - monthLen))
+            pure (GoSem.Flow.ret (Sum.inr (jd, d, ym)))
+          else
+            let ym ← (GoSem.chk64 (ym + 1))
+            let jd ← (GoSem.chk64 (jd - monthLen))
+            pure (GoSem.Flow.next (jd, d, ym))
+      )
+      (jd, d, ym)
+    match _r1 with
+    | GoSem.Flow.ret _v => pure _v
+    | GoSem.Flow.next (jd, d, ym) =>
+      let (year, mm) ← (utils_Divmod_chk ym 12)
+      pure (some (← (SrcExt.lib_NewDate year (GoSem.u8 (← (GoSem.chk64 (mm + 1)))) (GoSem.u8 d))))
+
 /-- cal_types/hijri/hijri.go:248 -/
 def hijriT_ToJd_chk (monthData : hijri_MonthData) (date : GoSem.Date) : Option Int := do
   let (jd, ok) ← (hijriT_MonthData_GetJdFromDate_chk monthData date)
@@ -1823,6 +1904,17 @@ def hijriT_ToJd_chk (monthData : hijri_MonthData) (date : GoSem.Date) : Option I
     pure jd
   else
     (GoSem.chk64 ((← (GoSem.chk64 ((← (GoSem.chk64 ((← (GoSem.chk64 ((date).Day + (GoSem.ftoi ((Rat.ceil (((59 : Rat) / 2) * (((GoSem.u8 ((date).Month - 1)) : Int) : Rat)) : Int) : Rat))))) + (← (GoSem.chk64 ((← (GoSem.chk64 ((date).Year - 1))) * 354)))))) + (← (utils_Div_chk (← (GoSem.chk64 ((← (GoSem.chk64 (11 * (date).Year))) + 3))) 30))))) + 1948440))
+
+/-- cal_types/hijri/hijri.go:262 -/
+def hijriT_JdTo_chk (monthData : hijri_MonthData) (jd : Int) : Option GoSem.Date := do
+  let date ← (hijriT_MonthData_GetDateFromJd_chk monthData jd)
+  if (date).isSome then
+    date
+  else
+    let year ← (utils_Div_chk (← (GoSem.chk64 ((← (GoSem.chk64 (30 * (← (GoSem.chk64 ((← (GoSem.chk64 (jd - 1))) - 1948440)))))) + 10646))) 10631)
+    let month := (GoSem.u8 (← (utils_IntMin_chk 12 (GoSem.ftoi ((Rat.ceil (((((jd : Int) : Rat) + ((1 : Rat) / 2)) - (((← (hijriT_ToJd_chk monthData (← (SrcExt.lib_NewDate year 1 1)))) : Int) : Rat)) / ((59 : Rat) / 2)) : Int) : Rat)))))
+    let day := (GoSem.u8 (← (GoSem.chk64 ((← (GoSem.chk64 (jd - (← (hijriT_ToJd_chk monthData (← (SrcExt.lib_NewDate year month 1))))))) + 1))))
+    (SrcExt.lib_NewDate year month day)
 
 /-- cal_types/hijri/hijri.go:281 -/
 def hijriT_GetMonthLen_chk (monthData : hijri_MonthData) (year : Int) (month : Int) : Option Int := do
@@ -1832,6 +1924,6 @@ def hijriT_GetMonthLen_chk (monthData : hijri_MonthData) (year : Int) (month : I
     pure (GoSem.u8 (← (GoSem.chk64 ((← (hijriT_ToJd_chk monthData (← (SrcExt.lib_NewDate year (GoSem.u8 (month + 1)) 1)))) - (← (hijriT_ToJd_chk monthData (← (SrcExt.lib_NewDate year month 1))))))))
 
 /-- the functions translated on this run -/
-def translated : List String := ["utils_Mod", "utils_Div", "utils_Divmod", "utils_IntMin", "utils_GetHmsBySeconds", "utils_MonthListIsValid", "utils_DayListIsValid", "utils_WeekDayListIsValid", "utils_bisectLeftRange", "utils_BisectLeft", "lib_GetTotalSeconds", "lib_GetFloatHour", "lib_FloatHourToHMS", "lib_toUint8", "lib_HMS_IsValid", "lib_Date_IsValid", "interval_Less", "interval_GetPointList", "interval_GetIntervalList", "interval_Normalize", "interval_Humanize", "interval_Extract", "interval_IntervalListByNumList", "interval_intersectionOfSomeIntervalLists_endPoint", "interval_IntersectionOfSomeIntervalLists", "interval_Intersection", "stack_Push", "stack_Pop", "rules_WeekMonth_IsValid", "julian_IsLeap", "julian_getYearDays", "julian_getMonthDayFromYdays", "julian_ToJd", "julian_JdTo", "julian_GetMonthLen", "jalali_IsLeap", "jalali_getMonthDayFromYdays", "jalali_ToJd", "jalali_JdTo", "jalali_GetMonthLen", "ethiopian_IsLeap", "ethiopian_ToJd", "ethiopian_JdTo", "ethiopian_GetMonthLen", "gprol_IsLeap", "gprol_ToJd", "gprol_JdTo", "gprol_GetMonthLen", "indian_IsLeap", "indian_ToJd", "indian_JdTo", "indian_GetMonthLen", "hijri_IsLeap", "hijri_ToJd", "hijri_JdTo", "hijri_GetMonthLen", "hijri_MonthData_GetDateFromJd", "hijri_MonthData_GetJdFromDate", "hijriT_IsLeap", "hijriT_MonthData_GetJdFromDate", "hijriT_ToJd", "hijriT_GetMonthLen"]
+def translated : List String := ["utils_Mod", "utils_Div", "utils_Divmod", "utils_IntMin", "utils_GetHmsBySeconds", "utils_MonthListIsValid", "utils_DayListIsValid", "utils_WeekDayListIsValid", "utils_bisectLeftRange", "utils_BisectLeft", "lib_GetTotalSeconds", "lib_GetFloatHour", "lib_FloatHourToHMS", "lib_toUint8", "lib_HMS_IsValid", "lib_Date_IsValid", "interval_Less", "interval_GetPointList", "interval_GetIntervalList", "interval_Normalize", "interval_Humanize", "interval_Extract", "interval_IntervalListByNumList", "interval_intersectionOfSomeIntervalLists_endPoint", "interval_IntersectionOfSomeIntervalLists", "interval_Intersection", "stack_Push", "stack_Pop", "rules_WeekMonth_IsValid", "julian_IsLeap", "julian_getYearDays", "julian_getMonthDayFromYdays", "julian_ToJd", "julian_JdTo", "julian_GetMonthLen", "jalali_IsLeap", "jalali_getMonthDayFromYdays", "jalali_ToJd", "jalali_JdTo", "jalali_GetMonthLen", "ethiopian_IsLeap", "ethiopian_ToJd", "ethiopian_JdTo", "ethiopian_GetMonthLen", "gprol_IsLeap", "gprol_ToJd", "gprol_JdTo", "gprol_GetMonthLen", "indian_IsLeap", "indian_ToJd", "indian_JdTo", "indian_GetMonthLen", "hijri_IsLeap", "hijri_ToJd", "hijri_JdTo", "hijri_GetMonthLen", "hijri_MonthData_GetDateFromJd", "hijri_MonthData_GetJdFromDate", "hijriT_IsLeap", "hijriT_MonthData_GetJdFromDate", "hijriT_MonthData_GetDateFromJd", "hijriT_ToJd", "hijriT_JdTo", "hijriT_GetMonthLen"]
 
 end Starcal.Gen.Src
